@@ -10,6 +10,7 @@ import (
 	"encoding/json"
 	"fmt"
 	"os"
+	"sort"
 	"strings"
 
 	"github.com/imroc/req/v3/verifharness/hk"
@@ -81,7 +82,13 @@ func loadEntries(r *hk.Run) {
 	eps, err := readEntryPoints(repo)
 	if err != nil {
 		r.Fail(hk.Failure{Sig: "entry-table", What: "the table of entry points cannot be read from the source: " + err.Error()})
-		entryNames = []string{"Get", "Post", "MustGet", "MustPost"}
+		// fall back to the names known when the check was written, so that the oracle can still
+		// exhibit a concrete failing call
+		entryNames = nil
+		for n := range pkgFuncs {
+			entryNames = append(entryNames, n, "pkg."+n)
+		}
+		sort.Strings(entryNames)
 		return
 	}
 	entryNames = nil
